@@ -24,6 +24,11 @@ macro_rules! dispatch {
             "C05" => $f(&props::builder::C05 $(, $arg)*),
             "C06" => $f(&props::builder::C06 $(, $arg)*),
             "C07" => $f(&props::builder::C07 $(, $arg)*),
+            "C09" => $f(&props::builder2::C09 $(, $arg)*),
+            "C10" => $f(&props::builder2::C10 $(, $arg)*),
+            "C18" => $f(&props::builder2::C18 $(, $arg)*),
+            "C19" => $f(&props::builder2::C19 $(, $arg)*),
+            "C20" => $f(&props::builder2::C20 $(, $arg)*),
             other => {
                 eprintln!("harness error: no check registered for property {}", other);
                 std::process::exit(2)
